@@ -135,6 +135,9 @@ class Valve(BranchWInternalsComponent):
                 pipe_pit[internal[pipes[~fp], 1], TO_NODE] = valve_nodes[~fp]
 
                 to_nodes[mask_p] = valve_nodes[inverse_index]
+                # the valve node shares the state of its junction, whose temperature may have been
+                # fixed by a feeder after the valve node entries were created
+                node_pit[valve_nodes, TINIT_NODE] = node_pit[from_nodes[mask_p_uni], TINIT_NODE]
 
             tbl = cls.table_name()
             valve_pit[:, FROM_NODE] = from_nodes
